@@ -1384,6 +1384,29 @@ def run_C12(ctx):
 
 
 # ------------------------------------------------------------------------------------------ C13
+def check_raster_cases(ctx, cases, stream="raster"):
+    """`raster` cases: pixmap side (the largest square satisfying the LAST fit values), pixel classes at module centres (every
+    pixel for squares at integer scale), PNG round trip"""
+    impl, _ = ctx.correspond(stream, cases)
+    no_panic(ctx, stream, cases, impl)
+    ctx.count_oracle("pixel_classes", len(cases))
+    for c, o in zip(cases, impl):
+        q = o.split()
+        if len(q) == 6 and q[0] == "OK":
+            if q[1] != q[2]:
+                ctx.direct_failure("square_pixmap", {"case": c}, "pixmap is %sx%s" % (q[1], q[2]))
+            opts = dict(o.split("=", 1) for o in c.split()[3:])
+            side = int(c.split()[1]) + 2 * int(opts.get("margin", 4))
+            fw, fh = opts.get("fitw"), opts.get("fith")
+            want = min(int(fw), int(fh)) if (fw and fh) else int(fw) if fw else int(fh) if fh else side
+            if int(q[1]) != want:
+                ctx.direct_failure("pixmap_side", {"case": c}, "pixmap side %s, the largest square satisfying the request is %d" % (q[1], want))
+            if q[3] != "0" or q[4] != "0":
+                ctx.direct_failure("pixel_classes", {"case": c}, "centre mismatches %s, full-cell mismatches %s" % (q[3], q[4]))
+            if q[5] != "1":
+                ctx.direct_failure("png_roundtrip", {"case": c}, "PNG bytes do not decode to the pixmap")
+
+
 def run_C13(ctx):
     rng = ctx.rng
     versions = [0, 1, 4, 9] if ctx.quick else [0, 1, 2, 4, 6, 9, 14, 19, 24, 29, 39]
@@ -1451,27 +1474,21 @@ def run_C13(ctx):
             for _ in range(1 if ctx.quick else 3):
                 vals = [side * rng.choice([4, 5, 6, 7, 8]) + rng.choice([0, 0, 3]) for _ in pat]
                 cases.append("raster %d %s shape=0 margin=4 " % (n, hx) + " ".join("fit%s=%d" % (a, b) for a, b in zip(pat, vals)))
-    impl, _ = ctx.correspond("raster", cases)
-    no_panic(ctx, "raster", cases, impl)
-    ctx.count_oracle("pixel_classes", len(cases))
-    for c, o in zip(cases, impl):
-        q = o.split()
-        if len(q) == 6 and q[0] == "OK":
-            if q[1] != q[2]:
-                ctx.direct_failure("square_pixmap", {"case": c}, "pixmap is %sx%s" % (q[1], q[2]))
-            opts = dict(o.split("=", 1) for o in c.split()[3:])
-            side = int(c.split()[1]) + 2 * int(opts.get("margin", 4))
-            fw, fh = opts.get("fitw"), opts.get("fith")
-            want = min(int(fw), int(fh)) if (fw and fh) else int(fw) if fw else int(fh) if fh else side
-            if int(q[1]) != want:
-                ctx.direct_failure("pixmap_side", {"case": c}, "pixmap side %s, the largest square satisfying the request is %d" % (q[1], want))
-            if q[3] != "0" or q[4] != "0":
-                ctx.direct_failure("pixel_classes", {"case": c}, "centre mismatches %s, full-cell mismatches %s" % (q[3], q[4]))
-            if q[5] != "1":
-                ctx.direct_failure("png_roundtrip", {"case": c}, "PNG bytes do not decode to the pixmap")
+    check_raster_cases(ctx, cases)
 
 
 # ------------------------------------------------------------------------------------------ C14
+def check_hist_cases(ctx, cases, stream="builder_histories"):
+    """`hist` cases: correspondence with the model's builder, no panic, and every build on the reused builder equal to a
+    build on a fresh builder carrying the same final options"""
+    impl, _ = ctx.correspond(stream, cases)
+    no_panic(ctx, stream, cases, impl)
+    ctx.count_oracle("shared_vs_fresh_builder", len(cases))
+    for c, o in zip(cases, impl):
+        if o.startswith("OK") and any(tok.startswith("0:") for tok in o.split()[1:]):
+            ctx.direct_failure("shared_vs_fresh_builder", {"case": c}, "a build on a reused builder differs from a fresh builder with the same final options: " + o[:80])
+
+
 def run_C14(ctx):
     rng = ctx.rng
     cases = []
@@ -1513,12 +1530,7 @@ def run_C14(ctx):
                 if okm:
                     cases.append("hist %s mode=%d mode=%d build" % (hexs(data), m1, m2))
                     cases.append("hist %s mode=%d ecl=1 mode=%d version=5 build" % (hexs(data), m1, m2))
-    impl, _ = ctx.correspond("builder_histories", cases)
-    no_panic(ctx, "hist", cases, impl)
-    ctx.count_oracle("shared_vs_fresh_builder", len(cases))
-    for c, o in zip(cases, impl):
-        if o.startswith("OK") and any(tok.startswith("0:") for tok in o.split()[1:]):
-            ctx.direct_failure("shared_vs_fresh_builder", {"case": c}, "a build on a reused builder differs from a fresh builder with the same final options: " + o[:80])
+    check_hist_cases(ctx, cases)
     # order independence: the same build cases in one process, in two different orders, must give the same outputs
     oc = []
     for i in range(60 if ctx.quick else 600):
@@ -1961,6 +1973,46 @@ def fuzz_image(ctx, cands):
         check_image_cases(ctx, cases, "fuzz-svg_image")
 
 
+def raster_in_domain(c):
+    """C13's pixel statement needs distinguishable colours: opaque modules whose colour differs clearly from the background"""
+    fg, bg = [0, 0, 0, 255], [255, 255, 255, 255]
+    for o in c.split()[3:]:
+        k, v = o.split("=", 1)
+        if k in ("fg", "fgv"):
+            fg = list(bytes.fromhex(v))
+        elif k == "fgv3":
+            fg = list(bytes.fromhex(v))[:3] + [255]
+        elif k == "fgs":
+            fg = list(bytes.fromhex(v.split(":")[1]))
+        elif k in ("bg", "bgv"):
+            bg = list(bytes.fromhex(v))
+        elif k == "bgv3":
+            bg = list(bytes.fromhex(v))[:3] + [255]
+        elif k == "bgs":
+            bg = list(bytes.fromhex(v.split(":")[1]))
+    if fg[3] != 255:
+        return False
+    pb = [x * bg[3] // 255 for x in bg[:3]]
+    return max(abs(a - b) for a, b in zip(fg[:3], pb)) > 24 or bg[3] < 200
+
+
+def fuzz_raster(ctx, cands):
+    cases = [c for c in cands.get("raster", []) if raster_in_domain(c)][:80]
+    if cases:
+        check_raster_cases(ctx, cases, "fuzz-raster")
+
+
+def fuzz_hist(ctx, cands):
+    cases = cands.get("hist", [])[:150]
+    if cases:
+        check_hist_cases(ctx, cases, "fuzz-hist")
+
+
+def fuzz_hist_and_raster(ctx, cands):
+    fuzz_hist(ctx, cands)
+    fuzz_raster(ctx, cands)
+
+
 def fuzz_wasm(ctx, cands):
     cases = cands.get("wasm", [])[:150]
     if cases:
@@ -1992,9 +2044,9 @@ REGISTRY = {
             "rule": "selection traces through the hook recorder; documented penalty of every candidate; raw line / matrix scanners"},
     "C12": {"run": run_C12, "fuzz": fuzz_svg, "tables": [],
             "rule": "SvgBuilder::to_str on real symbols: margins, 0..3 shape layers over the 6 shapes with and without colours, alpha, images incl. XML-special and non-ASCII strings, background shapes, overrides (multiples of 0.25)"},
-    "C13": {"run": run_C13, "tables": [],
+    "C13": {"run": run_C13, "fuzz": fuzz_raster, "tables": [],
             "rule": "to_pixmap on real symbols: 6 shapes x margins x colour pairs (incl. transparent background) at 1 px/module (squares, every pixel) and >= 4 px/module (centre sampling) through fit width / height / both; PNG decoded with the png crate"},
-    "C14": {"run": run_C14, "tables": [],
+    "C14": {"run": run_C14, "fuzz": fuzz_hist_and_raster, "tables": [],
             "rule": "random setter/build histories on one builder compared with the model and with a fresh builder; 1..16 threads building different inputs vs the sequential results; render twice"},
     "C17": {"run": run_C17, "fuzz": fuzz_wasm, "tables": [],
             "rule": "wasm option histories: every setter with well-formed and malformed values (colour strings of any content/length incl. non-ASCII, position arrays of length 0..4, size without position and vice versa), random histories; qr() on several contents"},
